@@ -56,6 +56,15 @@ type Case struct {
 	Copies []Copy `json:"copies,omitempty"`
 	// TSDB: (family C) some stores are real store.TSDBStore instances over real tsdb.DB heads, see tsdb_test.go.
 	TSDB *TSDBCfg `json:"tsdb,omitempty"`
+	// Shape: label names of the logical series. 0: all carry {__name__, a, z} (L=1..2, see PairAfter). 1, 2: prefix-shaped
+	// label sets {__name__,a} and {__name__,a,X} [L=3: and {__name__,a,z}], X = "pod" (1: sorts before every replica /
+	// external label name) or "zone" (2: sorts after all of them). Extending a prefix pair by the same further label
+	// changes its order iff the name of that label sorts after X.
+	Shape int `json:"shape,omitempty"`
+	// Region: every series also carries the NON-replica label region="eu", which the stores holding it have as an external
+	// label (real TSDBStores: in their external label set; fake stores serve it as part of the label set). It stays in the
+	// result with deduplication on.
+	Region bool `json:"region,omitempty"`
 }
 
 type Copy struct {
@@ -174,15 +183,47 @@ func (c Case) replicaLabelNames() []string {
 }
 
 func (c Case) logicalLabels(l int) labels.Labels {
-	a, z := "1", "x"
-	if l == 1 {
-		if c.PairAfter {
-			z = "y"
-		} else {
-			a = "2"
+	var kv []string
+	if c.Shape == 0 {
+		a, z := "1", "x"
+		if l == 1 {
+			if c.PairAfter {
+				z = "y"
+			} else {
+				a = "2"
+			}
+		}
+		kv = []string{"__name__", "m", "a", a, "z", z}
+	} else {
+		kv = []string{"__name__", "m", "a", "1"}
+		switch l {
+		case 1:
+			kv = append(kv, shapeLabel(c.Shape), "p")
+		case 2:
+			kv = append(kv, "z", "x")
 		}
 	}
-	return labels.FromStrings("__name__", "m", "a", a, "z", z)
+	if c.Region {
+		kv = append(kv, regionLabel, "eu")
+	}
+	return labels.FromStrings(kv...)
+}
+
+// regionLabel: the non-replica external label. Its name sorts after the series label names a, pod and the replica label r,
+// and before the replica label replica and the series label names z, zone.
+const regionLabel = "region"
+
+func shapeLabel(shape int) string {
+	if shape == 2 {
+		return "zone"
+	}
+	return "pod"
+}
+
+func (c Case) validateShape() {
+	if c.Shape < 0 || c.Shape > 2 || c.L < 1 || (c.Shape == 0 && c.L > 2) || (c.Shape > 0 && (c.L < 2 || c.L > 3 || c.PairAfter)) {
+		panic("HARNESS-ERROR inconsistent label shape of the case")
+	}
 }
 
 func (c Case) fullLabels(l, k int) labels.Labels {
@@ -330,6 +371,7 @@ func encode(ss []smp) storepb.AggrChunk {
 
 func (c Case) buildClients(rec *frameRec) []store.Client {
 	S := c.stores()
+	c.validateShape()
 	if c.TSDB != nil {
 		c.validateTSDB()
 	}
@@ -398,6 +440,7 @@ func (c Case) buildClients(rec *frameRec) []store.Client {
 
 type gotSeries struct {
 	lset string
+	lbls labels.Labels
 	ss   []smp
 }
 
@@ -420,7 +463,7 @@ func (c Case) run(rec *frameRec) ([]gotSeries, error) {
 	var out []gotSeries
 	for set.Next() {
 		s := set.At()
-		g := gotSeries{lset: s.Labels().String()}
+		g := gotSeries{lset: s.Labels().String(), lbls: s.Labels().Copy()}
 		it := s.Iterator(nil)
 		for len(g.ss) <= 4*nSamples {
 			vt := it.Next()
@@ -487,7 +530,8 @@ func gen(r *vlib.R) iter.Seq[Case] {
 	return func(yield func(Case) bool) {
 		// family C (real TSDBStores) first: it is the smallest family, so an overloaded machine that hits the deadline cuts
 		// the tail of the large fake-store families, never the only family that drives the real store.
-		if !genTSDB(r.Thorough(), yield) || os.Getenv("VERIF_C04_ONLY") == "tsdb" { // (env: measuring aid, family C alone)
+		if !genTSDB(r.Thorough(), yield) || !genTSDBExt(r.Thorough(), yield) || !genShapes(r.Thorough(), yield) ||
+			os.Getenv("VERIF_C04_ONLY") == "tsdb" { // (env: measuring aid, families C, C', D alone)
 			return
 		}
 		for R := 1; R <= 3; R++ {
@@ -662,12 +706,19 @@ func TestCheck(t *testing.T) {
 		"(= cuts 6x1, 2-2-2, 2-3-1, 4-2, 2-4, 6) x TSDBStore frame budget {1 chunk, 2 chunks, [t: 3 chunks,] production 1 MiB} x replica labels {external labels of the store, labels of the stored series (replicas may share a store), r external + replica stored} " +
 		"x logical series x replica label sets x the three dedup modes (identical: x step 1s) x (response batch size, retrieval) q {(1,eager),(3,eager),(1,lazy)} / t {1,3}x{eager,lazy} x {no further store; a fake store serving replica 0 again cut " +
 		"q {3-3 with, 6x1 without WithoutReplicaLabels support} / t {3-3, 6x1, 6} x support}; " +
-		"non-trivial = distinct dedup-on cases with >= 2 replicas whose chunk cuts differ or overlap, distinct cases (any dedup mode) where one replica is served by several stores with different cuts, " +
+		"PLUS (after seeded defect C04-r3 escaped; enumerated right after the real stores) the label dimension: every series carries a NON-replica external label region (real TSDBStores: in their external label set, merged into every series; " +
+		"its name sorts after the series label names a, pod and the replica label r, before replica, z, zone) and/or the logical series have prefix-shaped label sets {a},{a,pod} / {a},{a,pod},{a,z} / {a},{a,zone} " +
+		"(merging the same further label into a prefix pair changes its order iff the extra series label sorts before it) = 9 label variants x the real-store product above " +
+		"(q: chunk ranges {1,big} (second store {3}) x budget 1 chunk (6 frames / 1 frame per series) x {no copy, 3-3 copy with support} x step 10s; t: chunk ranges {1,2,3,big} (second store {1,3}), every other alphabet of the thorough product, step 10s) " +
+		"and x fake stores: R=2, every pair of 3 partition cuts, one or two stores x replica labels x dedup modes x support x framing x eager/lazy [t: x batch 1/3]; " +
+		"non-trivial = distinct real-store cases where merging the remaining external labels changes the order of two series of one store, distinct dedup-on cases with >= 2 replicas whose chunk cuts differ or overlap, distinct cases (any dedup mode) where one replica is served by several stores with different cuts, " +
 		"and distinct cases where a real TSDBStore sent one stored series in >= 2 frames (observed on the stream between store and proxy) " +
-		"(extra counters: cases_same_replica_on_several_stores, cases_dedup_off_nested_chunk_then_newer_chunk, cases_real_tsdbstore, cases_real_tsdbstore_series_in_several_frames, max_frames_per_series_from_real_tsdbstore)")
+		"(extra counters: cases_same_replica_on_several_stores, cases_dedup_off_nested_chunk_then_newer_chunk, cases_real_tsdbstore, cases_real_tsdbstore_series_in_several_frames, max_frames_per_series_from_real_tsdbstore, cases_non_replica_external_label, cases_prefix_shaped_label_sets, " +
+		"cases_real_tsdbstore_external_labels_change_series_order[_lazy_dedup_on_two_stores], results_not_sorted_by_labels_not_asserted)")
 	r.Assume("stores are fakes that behave like a conforming StoreAPI (series sorted by labels, chunks by min time; with WithoutReplicaLabels support they strip the labels and re-sort), " +
 		"or real TSDBStores used in process (storepb.ServerAsClient, as receive and query do) whose unexported frame budget maxBytesPerFrame is set through a thin in-package adapter; " +
 		"the chunk cut of a real store is the one its tsdb head makes (chunk range = MinBlockDuration), verified when the head is built; " +
+		"the non-replica external label has the same value on every store (otherwise the replicas would not be the same logical series); the order of the returned series is counted, not asserted (the statement does not promise one); " +
 		"raw XOR float chunks; query range = exactly the sample range; penalty dedup; partial response disabled")
 	dbRoot = t.TempDir()
 	defer closeDBs()
@@ -676,6 +727,11 @@ func TestCheck(t *testing.T) {
 	r.Set("cases_real_tsdbstore_series_in_several_frames", nFramed.Load())
 	r.Set("max_frames_per_series_from_real_tsdbstore", maxFrames.Load())
 	r.Set("tsdb_heads_built", dbCount.Load())
+	r.Set("cases_non_replica_external_label", nRegion.Load())
+	r.Set("cases_prefix_shaped_label_sets", nPrefix.Load())
+	r.Set("cases_real_tsdbstore_external_labels_change_series_order", nExtReorder.Load())
+	r.Set("cases_real_tsdbstore_external_labels_change_series_order_lazy_dedup_on_two_stores", nExtReorderLazy.Load())
+	r.Set("results_not_sorted_by_labels_not_asserted", nUnsorted.Load())
 	r.Set("cases_same_replica_on_several_stores", nCopies.Load())
 	r.Set("cases_dedup_off_nested_chunk_then_newer_chunk", nNestedOff.Load())
 }
@@ -685,6 +741,10 @@ var nCopies, nNestedOff atomic.Int64
 
 // family C: cases with real TSDBStores; those where a real store sent one series in >= 2 frames; the largest number of frames
 var nTSDB, nFramed, maxFrames atomic.Int64
+
+// cases with a non-replica external label / prefix-shaped label sets; real-store cases where merging the remaining external
+// labels changes the order of two series of one store; results that were not sorted by labels (informational, not asserted)
+var nRegion, nPrefix, nExtReorder, nExtReorderLazy, nUnsorted atomic.Int64
 
 func evalCase(r *vlib.R, c Case) {
 	r.Sample(c)
@@ -725,10 +785,39 @@ func evalCase(r *vlib.R, c Case) {
 			}
 		}
 	}
+	if c.Region {
+		nRegion.Add(1)
+	}
+	if c.Shape > 0 {
+		nPrefix.Add(1)
+	}
+	// family C: extReorder = one real TSDBStore holds two series whose TSDB order differs from the order of the label sets it
+	// has to send, only because the remaining external labels are merged into them
+	extReorder := c.TSDB != nil && c.extReorders()
+	if extReorder {
+		nExtReorder.Add(1)
+		r.Nontrivial(caseKey(c))
+		if c.Lazy && c.Dedup && c.stores() >= 2 {
+			nExtReorderLazy.Add(1)
+		}
+	}
+	for i := 1; i < len(got); i++ {
+		if labels.Compare(got[i-1].lbls, got[i].lbls) > 0 {
+			nUnsorted.Add(1) // the statement does not promise an order: counted only
+			break
+		}
+	}
 	// narrow class suffix: a real TSDBStore sent one series in several frames
 	framed := func(sig string) string {
 		if frames >= 2 {
 			return sig + "-tsdbstore-series-in-several-frames"
+		}
+		return sig
+	}
+	// narrow class suffix (for series returned more than once only): merging the external labels reorders the series of a real TSDBStore
+	reordered := func(sig string) string {
+		if extReorder {
+			return sig + "-tsdbstore-external-labels-change-series-order"
 		}
 		return sig
 	}
@@ -789,7 +878,7 @@ func evalCase(r *vlib.R, c Case) {
 			case len(gs) == 0:
 				r.Violation(framed("dedup-on-logical-series-missing"), fmt.Sprintf("no series %s in the result: %s", want, describe()), c)
 			case len(gs) > 1:
-				r.Violation(framed("dedup-on-logical-series-returned-more-than-once"), fmt.Sprintf("%d series %s in the result: %s", len(gs), want, describe()), c)
+				r.Violation(framed(reordered("dedup-on-logical-series-returned-more-than-once")), fmt.Sprintf("%d series %s in the result: %s", len(gs), want, describe()), c)
 			case c.Identical && !eqS(gs[0].ss, c.samples(l, 0)):
 				sig := "dedup-on-identical-replicas-samples-changed"
 				if len(gs[0].ss) < nSamples {
@@ -832,7 +921,7 @@ func evalCase(r *vlib.R, c Case) {
 			case len(gs) == 0:
 				r.Violation(framed("dedup-off-replica-series-missing"), fmt.Sprintf("no series %s in the result: %s", want, describe()), c)
 			case len(gs) > 1:
-				r.Violation(framed("dedup-off-replica-series-returned-more-than-once"), fmt.Sprintf("%d series %s: %s", len(gs), want, describe()), c)
+				r.Violation(framed(reordered("dedup-off-replica-series-returned-more-than-once")), fmt.Sprintf("%d series %s: %s", len(gs), want, describe()), c)
 			case !eqS(gs[0].ss, c.samples(l, k)):
 				sig := "dedup-off-replica-samples-changed"
 				if multiStore[k] {
